@@ -81,6 +81,41 @@ theorem find_rel : ∀ (rs : List RelR) (srels : List Rel) (rid : Text), RelsAgr
         simp only [this, he, decide_false]
         exact ih srest rid hrest
 
+/-- … and for ALL relationships with that id, in document order (the library's loop visits every one of them) -/
+theorem filter_rel : ∀ (rs : List RelR) (srels : List Rel) (rid : Text), RelsAgree rs srels →
+    (srels.filter (fun r => r.id = str rid)).map (·.target) = (rs.filter (·.id = rid)).map (fun r => str r.target) := by
+  intro rs
+  induction rs with
+  | nil =>
+    intro srels rid h
+    simp only [RelsAgree, List.map_nil, List.map_eq_nil_iff] at h
+    subst h; rfl
+  | cons r rest ih =>
+    intro srels rid h
+    cases srels with
+    | nil => simp [RelsAgree] at h
+    | cons s srest =>
+      simp only [RelsAgree, List.map_cons, List.cons.injEq, Prod.mk.injEq] at h
+      obtain ⟨⟨hid, htg⟩, hrest⟩ := h
+      have ih' := ih srest rid hrest
+      by_cases he : r.id = rid
+      · have : s.id = str rid := by rw [hid, he]
+        simp only [List.filter_cons, this, he, decide_true, if_true, List.map_cons, htg, ih']
+      · have : ¬ s.id = str rid := by
+          rw [hid]; intro e; exact he (String.ofList_inj.mp e)
+        simp only [List.filter_cons, this, he, decide_false]
+        exact ih'
+
+/-- at most one hit: the last hit is the first -/
+theorem getLast?_filter_unique {α} (p : α → Bool) (l : List α) (h : (l.filter p).length ≤ 1) :
+    (l.filter p).getLast? = l.find? p := by
+  rw [← List.head?_filter]
+  generalize l.filter p = m at h
+  match m, h with
+  | [], _ => rfl
+  | [a], _ => rfl
+  | a :: b :: t, h => simp at h
+
 /-! ## hyperlinks -/
 
 /-- the decoder's reading of one `<hyperlink>`: the link component of `decodeSheet`'s `linksE` -/
